@@ -915,7 +915,7 @@ func (s *SecureChannel) scheduleRenewal(instance *channelInstance) {
 	// Clients should request a new SecurityToken after 75 % of its lifetime has elapsed. This should ensure that
 	// clients will receive the new SecurityToken before the old one actually expire
 	const renewAfter = 0.75
-	when := time.Second * time.Duration(instance.revisedLifetime.Seconds()*renewAfter)
+	when := time.Duration(float64(instance.revisedLifetime) * renewAfter)
 
 	debug.Printf("uasc %d: security token is refreshed at %s (%s). channelID=%d tokenID=%d", s.c.ID(), time.Now().UTC().Add(when).Format(time.RFC3339), when, instance.secureChannelID, instance.securityTokenID)
 
